@@ -689,31 +689,46 @@ fn c12_t_limits_other_widths() {
 
 // ---- vector / quaternion precise forms at f32: exact endpoints under rounding ------------------------------------
 fn fin() -> f32 { let x: f32 = kani::any(); kani::assume(x.is_finite()); x }
-/// K: fns=Vec3::lerp_unclamped_precise,Vec3::lerp_precise,<Vec3 as Lerp<f32>>::lerp_unclamped_precise,<&Vec3 as Lerp<f32>>::lerp_unclamped_precise,Quaternion::lerp_unclamped_precise_unnormalized,Vec2::lerp_unclamped_precise,Rgba::lerp_unclamped_precise
-/// K: inst=Vec2/Vec3/Rgba/Quaternion<f32> | bound=all finite components; factors 0, 1 (scalar and per element), 2 and -1 for the clamped form | stubs=f32::mul_add -> contract (exact where the product is exact)
-/// K: asserts=the precise forms return `from` exactly at 0 and `to` exactly at 1, per element for a per-element factor; clamped form saturates
+/// K: fns=Vec3::lerp_unclamped_precise | inst=Vec3<f32> | bound=all finite components; scalar factors 0 and 1 | stubs=f32::mul_add -> contract (exact where the product is exact)
+/// K: asserts=the inherent precise form returns `from` exactly at 0 and `to` exactly at 1
 #[kani::proof]
 #[kani::stub(f32::mul_add, crate::fstub::fma32_contract)]
-fn c12_q_vec_f32_precise_endpoints() {
+fn c12_q_vec3_f32_precise_endpoints() {
+    use vek::vec::repr_c::Vec3;
+    let (a, b) = (Vec3::new(fin(), fin(), fin()), Vec3::new(fin(), fin(), fin()));
+    kani::cover!(a.x > 1.0e30 && b.x < -1.0e30, "huge endpoints of opposite sign");
+    kani::cover!(a.y != b.y && b.y.abs() < 1.0e-38, "subnormal endpoint");
+    assert!(Vec3::lerp_unclamped_precise(a, b, 1.0f32) == b, "inherent, scalar factor 1");
+    assert!(Vec3::lerp_unclamped_precise(a, b, 0.0f32) == a, "inherent, scalar factor 0");
+}
+/// K: fns=Vec3::lerp_unclamped_precise,Vec3::lerp_precise,<Vec3 as Lerp<f32>>::lerp_unclamped_precise,<&Vec3 as Lerp<f32>>::lerp_unclamped_precise | inst=Vec3<f32> | bound=all finite components; per-element factor in {0,1}^3, clamped form at 2 and -1, trait forms at 0 and 1 | stubs=f32::mul_add -> contract
+/// K: asserts=per-element factor picks `from`/`to` per lane exactly; clamped form saturates; Lerp<f32> impls (by value and by reference) return the endpoints exactly
+#[kani::proof]
+#[kani::stub(f32::mul_add, crate::fstub::fma32_contract)]
+fn c12_q_vec3_f32_precise_forms() {
+    use vek::vec::repr_c::Vec3;
+    let (a, b) = (Vec3::new(fin(), fin(), fin()), Vec3::new(fin(), fin(), fin()));
+    kani::cover!(a.z != b.z, "distinct endpoints");
+    match kani::any::<u8>() % 3 {
+        0 => assert!(Vec3::lerp_unclamped_precise(a, b, Vec3::new(0.0f32, 1.0, 0.0)) == Vec3::new(a.x, b.y, a.z), "inherent, per-element factor"),
+        1 => assert!(Vec3::lerp_precise(a, b, 2.0f32) == b && Vec3::lerp_precise(a, b, -1.0f32) == a, "inherent, clamped"),
+        _ => assert!(<Vec3<f32> as Lerp<f32>>::lerp_unclamped_precise(a, b, 1.0) == b && <&Vec3<f32> as Lerp<f32>>::lerp_unclamped_precise(&a, &b, 0.0) == a, "Lerp<f32>, by value and by reference"),
+    }
+}
+/// K: fns=Vec2::lerp_unclamped_precise,Rgba::lerp_unclamped_precise,Quaternion::lerp_unclamped_precise_unnormalized,Quaternion::lerp_precise_unnormalized | inst=Vec2/Rgba/Quaternion<f32> | bound=all finite components; factors 0, 1 (and 3, -3 for the clamped quaternion form) | stubs=f32::mul_add -> contract
+/// K: asserts=the precise forms return `from` exactly at 0 and `to` exactly at 1
+#[kani::proof]
+#[kani::stub(f32::mul_add, crate::fstub::fma32_contract)]
+fn c12_q_vec_other_f32_precise_endpoints() {
     use vek::quaternion::repr_c::Quaternion;
-    use vek::vec::repr_c::{Rgba, Vec2, Vec3};
-    match kani::any::<u8>() % 4 {
+    use vek::vec::repr_c::{Rgba, Vec2};
+    match kani::any::<u8>() % 3 {
         0 => {
-            let (a, b) = (Vec3::new(fin(), fin(), fin()), Vec3::new(fin(), fin(), fin()));
-            kani::cover!(a.x > 1.0e30 && b.x < -1.0e30, "huge endpoints of opposite sign");
-            kani::cover!(a.y != b.y && b.y.abs() < 1.0e-38, "subnormal endpoint");
-            assert!(Vec3::lerp_unclamped_precise(a, b, 0.0f32) == a && Vec3::lerp_unclamped_precise(a, b, 1.0f32) == b, "inherent, scalar factor");
-            assert!(Vec3::lerp_unclamped_precise(a, b, Vec3::new(0.0f32, 1.0, 0.0)) == Vec3::new(a.x, b.y, a.z), "inherent, per-element factor");
-            assert!(Vec3::lerp_precise(a, b, 2.0f32) == b && Vec3::lerp_precise(a, b, -1.0f32) == a, "inherent, clamped");
-            assert!(<Vec3<f32> as Lerp<f32>>::lerp_unclamped_precise(a, b, 1.0) == b && <Vec3<f32> as Lerp<f32>>::lerp_unclamped_precise(a, b, 0.0) == a, "Lerp<f32>");
-            assert!(<&Vec3<f32> as Lerp<f32>>::lerp_unclamped_precise(&a, &b, 1.0) == b, "Lerp<f32> by reference");
+            let (a, b) = (Vec2::new(fin(), fin()), Vec2::new(fin(), fin()));
+            kani::cover!(a.x != b.x, "distinct endpoints");
+            assert!(Vec2::lerp_unclamped_precise(a, b, 0.0f32) == a && Vec2::lerp_unclamped_precise(a, b, 1.0f32) == b);
         }
         1 => {
-            let (a, b) = (Vec2::new(fin(), fin()), Vec2::new(fin(), fin()));
-            assert!(Vec2::lerp_unclamped_precise(a, b, 0.0f32) == a && Vec2::lerp_unclamped_precise(a, b, 1.0f32) == b);
-            assert!(<Vec2<f32> as Lerp<f32>>::lerp_precise(a, b, 7.0) == b && <Vec2<f32> as Lerp<f32>>::lerp_precise(a, b, -7.0) == a);
-        }
-        2 => {
             let (a, b) = (Rgba::new(fin(), fin(), fin(), fin()), Rgba::new(fin(), fin(), fin(), fin()));
             assert!(Rgba::lerp_unclamped_precise(a, b, 0.0f32) == a && Rgba::lerp_unclamped_precise(a, b, 1.0f32) == b);
         }
